@@ -113,9 +113,11 @@ theorem no_deadline_left_armed (cfg : Cfg) (c u : Script) :
   have h := (front_spec cfg c).armed
   refine ⟨h, ?_⟩
   unfold conn
-  split
-  · unfold relayPhase; split <;> simp [h]
-  · rfl
+  generalize front cfg c = f at *
+  cases hk : f.kind with
+  | relay => simp only [hk]; unfold relayPhase; dsimp only; split <;> simp [h]
+  | abort => simp only [hk]
+  | dns => simp only [hk]
 
 example : (conn exCfg exClient exUp).dial = some 100000 := by decide
 
@@ -125,7 +127,7 @@ theorem poison_only_after_client_reset (cfg : Cfg) (c : Script)
     (h : (front cfg c).st.poisoned = true) : c.fin = .reset ∧ c.finT ≤ (front cfg c).T :=
   (front_spec cfg c).poison h
 
-example : (front exCfg { exClient with evs := [exClient.evs.head!], finT := 50000, fin := .reset }).st.poisoned = true := by
+example : (front exCfg { exClient with evs := exClient.evs.take 1, finT := 50000, fin := .reset }).st.poisoned = true := by
   decide
 
 /-! ## 3. The whole connection: both byte streams, half-close, grace, never cut early -/
@@ -156,19 +158,24 @@ theorem upstream_receives_client_stream (cfg : Cfg) (c u : Script)
     bytesOf (conn cfg c u).up = c.stream := by
   have hp := clean_of_eof cfg c hc
   have fs := front_spec cfg c
-  have hup : (conn cfg c u).up = natDelivs (front cfg c).T (front cfg c).st.content (front cfg c).rest := by
-    rw [relayPhase_eq cfg c u hk]
-    unfold relayPhase
-    simp only [hp, dirNatural_clean, fs.finT, fs.fin]
-    unfold endL endR at hcut
-    split
-    · rfl
-    · rename_i hlt
-      have hlt' : max (front cfg c).T u.finT < max (front cfg c).T c.finT := by omega
+  have hstream := fs.stream hk
+  have hfin := fs.fin
+  have hfinT := fs.finT
+  rw [relayPhase_eq cfg c u hk]
+  unfold endL endR at hcut
+  generalize front cfg c = f at *
+  have hup : (relayPhase cfg f u).up = natDelivs f.T f.st.content f.rest := by
+    by_cases hle : max f.T f.rest.finT ≤ max f.T u.finT
+    · rw [relayPhase_client_first cfg f u hp hle]
+      simp only [hfin, hc, ↓reduceIte]
+      split <;> rfl
+    · have hlt : max f.T u.finT < max f.T f.rest.finT := by omega
+      rw [relayPhase_upstream_first cfg f u hp hlt]
+      rw [hfinT] at hlt
       rcases hcut with h | ⟨hu, hg⟩
       · omega
-      · simp [resolve, hu, hg]
-  exact ⟨hup, by rw [hup, bytesOf_natDelivs, fs.stream hk]⟩
+      · simp only [hu, hfinT, hg, ↓reduceIte]
+  exact ⟨hup, by rw [hup, bytesOf_natDelivs, hstream]⟩
 
 example : (front exCfg exClient).kind = .relay ∧ exClient.fin = .eof ∧
     endL exCfg exClient ≤ endR exCfg exClient exUp ∧
@@ -182,25 +189,32 @@ theorem client_receives_upstream_stream (cfg : Cfg) (c u : Script)
     (hcut : endR cfg c u < endL cfg c ∨ (c.fin = .eof ∧ endR cfg c u < endL cfg c + grace)) :
     (conn cfg c u).cl = natDelivs (front cfg c).T [] u ∧ bytesOf (conn cfg c u).cl = u.stream := by
   have fs := front_spec cfg c
-  have hcl : (conn cfg c u).cl = natDelivs (front cfg c).T [] u := by
-    rw [relayPhase_eq cfg c u hk]
-    unfold relayPhase
-    unfold endL endR at hcut
-    by_cases hle : (dirNatural (front cfg c).T (front cfg c).st.content (front cfg c).st.poisoned (front cfg c).rest).endT ≤
-        (dirNatural (front cfg c).T [] false u).endT
-    · simp only [hle, ↓reduceIte]
-      rcases hcut with h | ⟨hc, hg⟩
-      · -- the client side would have to end later than the upstream: impossible here unless poisoned
-        cases hp : (front cfg c).st.poisoned with
-        | false =>
-          simp only [hp, dirNatural_clean, fs.finT] at hle; omega
-        | true =>
-          have := (poison_only_after_client_reset cfg c hp)
-          omega
-      · have hp := clean_of_eof cfg c hc
-        simp only [hp, dirNatural_clean, fs.finT, fs.fin, hc] at hle ⊢
-        simp [resolve, hg]
-    · simp only [hle, ↓reduceIte, dirNatural_clean]
+  have hfin := fs.fin
+  have hfinT := fs.finT
+  have hpo := fs.poison
+  have hclean : c.fin = .eof → (front cfg c).st.poisoned = false := clean_of_eof cfg c
+  rw [relayPhase_eq cfg c u hk]
+  unfold endL endR at hcut
+  generalize front cfg c = f at *
+  have hcl : (relayPhase cfg f u).cl = natDelivs f.T [] u := by
+    cases hp : f.st.poisoned with
+    | true =>
+      have := hpo hp
+      rcases hcut with h | ⟨hc, _⟩
+      · omega
+      · simp [hc] at this
+    | false =>
+      by_cases hle : max f.T f.rest.finT ≤ max f.T u.finT
+      · rw [relayPhase_client_first cfg f u hp hle]
+        rw [hfinT] at hle
+        rcases hcut with h | ⟨hc, hg⟩
+        · omega
+        · simp only [hfin, hc, hfinT, hg, ↓reduceIte]
+      · have hlt : max f.T u.finT < max f.T f.rest.finT := by omega
+        rw [relayPhase_upstream_first cfg f u hp hlt]
+        split
+        · split <;> rfl
+        · rfl
   exact ⟨hcl, by rw [hcl, bytesOf_natDelivs]; simp⟩
 
 example : bytesOf (conn exCfg exClient exUp).cl = exUp.stream ∧
@@ -212,61 +226,43 @@ the other peer sent: never a byte that was not sent, never out of order, never t
 theorem received_is_prefix_of_sent (cfg : Cfg) (c u : Script) (hc : c.Sorted) (hu : u.Sorted) :
     bytesOf (conn cfg c u).up <+: c.stream ∧ bytesOf (conn cfg c u).cl <+: u.stream := by
   have fs := front_spec cfg c
-  unfold conn
-  split
-  · rename_i hk
-    have hl : ∀ ds, ds <+: natDelivs (front cfg c).T (front cfg c).st.content (front cfg c).rest →
-        bytesOf ds <+: c.stream := by
+  cases hk : (front cfg c).kind with
+  | relay =>
+    have hstream := fs.stream hk
+    have hsorted := fs.sorted hc
+    rw [relayPhase_eq cfg c u hk]
+    generalize front cfg c = f at *
+    have hl : ∀ ds, ds <+: natDelivs f.T f.st.content f.rest → bytesOf ds <+: c.stream := by
       intro ds h
       have := bytesOf_prefix h
-      rwa [bytesOf_natDelivs, fs.stream hk] at this
-    have hr : ∀ ds, ds <+: natDelivs (front cfg c).T [] u → bytesOf ds <+: u.stream := by
+      rwa [bytesOf_natDelivs, hstream] at this
+    have hr : ∀ ds, ds <+: natDelivs f.T [] u → bytesOf ds <+: u.stream := by
       intro ds h
       have := bytesOf_prefix h
       rwa [bytesOf_natDelivs, List.nil_append] at this
-    have sl := natDelivs_sorted (front cfg c).T (front cfg c).st.content (front cfg c).rest (fs.sorted hc)
-    have sr := natDelivs_sorted (front cfg c).T [] u hu
-    have headPre : (if (front cfg c).st.content.isEmpty then [] else [(⟨(front cfg c).T, (front cfg c).st.content⟩ : Deliv)]) <+:
-        natDelivs (front cfg c).T (front cfg c).st.content (front cfg c).rest := List.prefix_append _ _
-    unfold relayPhase
-    cases hp : (front cfg c).st.poisoned with
-    | false =>
-      simp only [dirNatural_clean]
-      split
-      · refine ⟨hl _ (List.prefix_refl _), hr _ ?_⟩
-        unfold resolve; dsimp only
-        split
-        · exact cutBefore_prefix _ _ sr
-        · split
-          · exact List.prefix_refl _
-          · exact cutBefore_prefix _ _ sr
-      · refine ⟨hl _ ?_, hr _ (List.prefix_refl _)⟩
-        unfold resolve; dsimp only
-        split
-        · exact cutBefore_prefix _ _ sl
-        · split
-          · exact List.prefix_refl _
-          · exact cutBefore_prefix _ _ sl
+    have sl := natDelivs_sorted f.T f.st.content f.rest hsorted
+    have sr := natDelivs_sorted f.T [] u hu
+    cases hp : f.st.poisoned with
     | true =>
-      simp only [dirNatural_poisoned, dirNatural_clean]
-      split
-      · refine ⟨hl _ headPre, hr _ ?_⟩
-        simp only [resolve, Bool.not_false, ↓reduceIte]
-        exact cutBefore_prefix _ _ sr
-      · refine ⟨hl _ ?_, hr _ (List.prefix_refl _)⟩
-        unfold resolve; dsimp only
-        have hsub : ∀ t, cutBefore t (if (front cfg c).st.content.isEmpty then []
-            else [(⟨(front cfg c).T, (front cfg c).st.content⟩ : Deliv)]) <+:
-            natDelivs (front cfg c).T (front cfg c).st.content (front cfg c).rest := by
-          intro t
-          refine List.IsPrefix.trans (cutBefore_prefix t _ ?_) headPre
-          split <;> simp
+      rw [relayPhase_poisoned cfg f u hp]
+      exact ⟨hl _ (List.prefix_append _ _), hr _ (cutBefore_prefix _ _ sr)⟩
+    | false =>
+      by_cases hle : max f.T f.rest.finT ≤ max f.T u.finT
+      · rw [relayPhase_client_first cfg f u hp hle]
         split
-        · exact hsub _
         · split
-          · exact headPre
-          · exact hsub _
-  · simp [bytesOf]
+          · exact ⟨hl _ (List.prefix_refl _), hr _ (List.prefix_refl _)⟩
+          · exact ⟨hl _ (List.prefix_refl _), hr _ (cutBefore_prefix _ _ sr)⟩
+        · exact ⟨hl _ (List.prefix_refl _), hr _ (cutBefore_prefix _ _ sr)⟩
+      · have hlt : max f.T u.finT < max f.T f.rest.finT := by omega
+        rw [relayPhase_upstream_first cfg f u hp hlt]
+        split
+        · split
+          · exact ⟨hl _ (List.prefix_refl _), hr _ (List.prefix_refl _)⟩
+          · exact ⟨hl _ (cutBefore_prefix _ _ sl), hr _ (List.prefix_refl _)⟩
+        · exact ⟨hl _ (cutBefore_prefix _ _ sl), hr _ (List.prefix_refl _)⟩
+  | abort => unfold conn; simp [hk, bytesOf]
+  | dns => unfold conn; simp [hk, bytesOf]
 
 example : exClient.Sorted ∧ exUp.Sorted := by
   unfold Script.Sorted exClient exUp; constructor <;> simp
@@ -285,18 +281,22 @@ theorem halfclose_client_first (cfg : Cfg) (c u : Script)
     (conn cfg c u).ret = min (endR cfg c u) (endL cfg c + grace) := by
   have hp := clean_of_eof cfg c hc
   have fs := front_spec cfg c
+  have hfin := fs.fin
+  have hfinT := fs.finT
   rw [relayPhase_eq cfg c u hk]
-  unfold relayPhase endL endR at *
-  simp only [hp, dirNatural_clean, fs.finT, fs.fin, hc, hfirst, ↓reduceIte]
-  have hmem : ∀ e ∈ u.evs, (⟨max (front cfg c).T e.t, e.data⟩ : Deliv) ∈ natDelivs (front cfg c).T [] u := by
+  unfold endL endR at *
+  generalize front cfg c = f at *
+  have hmem : ∀ e ∈ u.evs, (⟨max f.T e.t, e.data⟩ : Deliv) ∈ natDelivs f.T [] u := by
     intro e he
     unfold natDelivs
     exact List.mem_append_right _ (List.mem_map.mpr ⟨e, he, rfl⟩)
-  by_cases hg : max (front cfg c).T u.finT < max (front cfg c).T c.finT + grace
-  · simp only [resolve, beq_self_eq_true, Bool.not_true, Bool.false_eq_true, ↓reduceIte, hg, hcw]
-    refine ⟨rfl, fun e he _ => hmem e he, hfirst, by omega, by omega⟩
-  · simp only [resolve, beq_self_eq_true, Bool.not_true, Bool.false_eq_true, ↓reduceIte, hg, hcw]
-    refine ⟨rfl, fun e he ht => cutBefore_keeps _ _ _ (hmem e he) ht, by omega, by omega, by omega⟩
+  rw [relayPhase_client_first cfg f u hp (by rw [hfinT]; exact hfirst)]
+  simp only [hfin, hc, hfinT, hcw, ↓reduceIte]
+  by_cases hg : max f.T u.finT < max f.T c.finT + grace
+  · simp only [hg, ↓reduceIte]
+    exact ⟨trivial, fun e he _ => hmem e he, hfirst, by omega, by omega⟩
+  · simp only [hg, ↓reduceIte]
+    exact ⟨trivial, fun e he ht => cutBefore_keeps _ _ _ (hmem e he) ht, by omega, by omega, by omega⟩
 
 example : (conn exCfg exClient exUp).upEof = 2300000 ∧ (conn exCfg exClient exUp).ret = 9000000 ∧
     (conn exCfg exClient { exUp with finT := 20000000 }).ret = 12300000 := by decide
@@ -313,21 +313,23 @@ theorem halfclose_upstream_first (cfg : Cfg) (c u : Script)
       d.t < endR cfg c u + grace → d ∈ (conn cfg c u).up) ∧
     endR cfg c u ≤ (conn cfg c u).ret ∧ (conn cfg c u).ret ≤ endR cfg c u + grace := by
   have fs := front_spec cfg c
-  have hp : (front cfg c).st.poisoned = false := by
-    cases hp : (front cfg c).st.poisoned with
-    | false => rfl
-    | true =>
-      have := poison_only_after_client_reset cfg c hp
-      unfold endL endR at hfirst; omega
+  have hfin := fs.fin
+  have hfinT := fs.finT
+  have hpo := fs.poison
   rw [relayPhase_eq cfg c u hk]
-  unfold relayPhase endL endR at *
-  have hnle : ¬ max (front cfg c).T c.finT ≤ max (front cfg c).T u.finT := by omega
-  simp only [hp, dirNatural_clean, fs.finT, fs.fin, hnle, ↓reduceIte, hu]
-  by_cases hg : max (front cfg c).T c.finT < max (front cfg c).T u.finT + grace
-  · simp only [resolve, beq_self_eq_true, Bool.not_true, Bool.false_eq_true, ↓reduceIte, hg, hcw]
-    exact ⟨rfl, fun d hd _ => hd, by omega, by omega⟩
-  · simp only [resolve, beq_self_eq_true, Bool.not_true, Bool.false_eq_true, ↓reduceIte, hg, hcw]
-    exact ⟨rfl, fun d hd ht => cutBefore_keeps _ _ _ hd ht, by omega, by omega⟩
+  unfold endL endR at *
+  generalize front cfg c = f at *
+  have hp : f.st.poisoned = false := by
+    cases hp : f.st.poisoned with
+    | false => rfl
+    | true => have := hpo hp; omega
+  rw [relayPhase_upstream_first cfg f u hp (by rw [hfinT]; exact hfirst)]
+  simp only [hu, hfinT, hcw, ↓reduceIte]
+  by_cases hg : max f.T c.finT < max f.T u.finT + grace
+  · simp only [hg, ↓reduceIte]
+    exact ⟨trivial, fun d hd _ => hd, by omega, by omega⟩
+  · simp only [hg, ↓reduceIte]
+    exact ⟨trivial, fun d hd ht => cutBefore_keeps _ _ _ hd ht, by omega, by omega⟩
 
 def exUpFirst : Script := ⟨[⟨5000, [50, 48, 48]⟩], 600000, .eof⟩
 example : endR exCfg exClient exUpFirst < endL exCfg exClient ∧
@@ -344,17 +346,23 @@ theorem healthy_connection_not_cut (cfg : Cfg) (c u : Script)
     (conn cfg c u).ret ≤ max (endL cfg c) (endR cfg c u) := by
   have hp := clean_of_eof cfg c hc
   have fs := front_spec cfg c
+  have hfin := fs.fin
+  have hfinT := fs.finT
   rw [relayPhase_eq cfg c u hk]
-  unfold relayPhase endL endR
-  simp only [hp, dirNatural_clean, fs.finT, fs.fin, hc]
-  split
-  · unfold resolve; dsimp only
-    simp only [beq_self_eq_true, Bool.not_true, Bool.false_eq_true, ↓reduceIte]
+  unfold endL endR
+  generalize front cfg c = f at *
+  by_cases hle : max f.T f.rest.finT ≤ max f.T u.finT
+  · rw [relayPhase_client_first cfg f u hp hle]
+    rw [hfinT] at hle
+    simp only [hfin, hc, hfinT, ↓reduceIte]
     split <;> dsimp only <;> omega
-  · unfold resolve; dsimp only
+  · have hlt : max f.T u.finT < max f.T f.rest.finT := by omega
+    rw [relayPhase_upstream_first cfg f u hp hlt]
+    rw [hfinT] at hlt
+    simp only [hfinT]
     split
-    · dsimp only; omega
     · split <;> dsimp only <;> omega
+    · dsimp only; omega
 
 example : (conn exCfg exClient exUp).ret = max (endL exCfg exClient) (endR exCfg exClient exUp) := by decide
 
@@ -365,19 +373,21 @@ theorem no_drop_before_end (cfg : Cfg) (c u : Script)
     ∀ d ∈ natDelivs (front cfg c).T (front cfg c).st.content (front cfg c).rest,
       d.t < (conn cfg c u).ret → d ∈ (conn cfg c u).up := by
   have hp := clean_of_eof cfg c hc
-  have fs := front_spec cfg c
   rw [relayPhase_eq cfg c u hk]
-  unfold relayPhase
-  simp only [hp, dirNatural_clean, fs.finT, fs.fin, hc]
+  generalize front cfg c = f at *
   intro d hd
-  split
-  · intro _; exact hd
-  · unfold resolve; dsimp only
+  by_cases hle : max f.T f.rest.finT ≤ max f.T u.finT
+  · rw [relayPhase_client_first cfg f u hp hle]
     split
-    · intro ht; exact cutBefore_keeps _ _ _ hd ht
+    · split <;> exact fun _ => hd
+    · exact fun _ => hd
+  · have hlt : max f.T u.finT < max f.T f.rest.finT := by omega
+    rw [relayPhase_upstream_first cfg f u hp hlt]
+    split
     · split
-      · intro _; exact hd
-      · intro ht; exact cutBefore_keeps _ _ _ hd ht
+      · exact fun _ => hd
+      · exact fun ht => cutBefore_keeps _ _ _ hd ht
+    · exact fun ht => cutBefore_keeps _ _ _ hd ht
 
 /-- The timed relay and the untimed engine agree on the bytes: an undisturbed direction delivers
 exactly what `engineCopy` writes for the same wrapper over the same segments (non-TCP pair). -/
